@@ -173,6 +173,13 @@ def _split_top(s: str) -> List[str]:
 def parse_file(text: str) -> dict:
     """The sections of a blockMeshDict as lists of plain entries."""
     res: Dict[str, Any] = {}
+    geo: List[list] = []
+    for l in _section(text, "geometry", "};"):
+        if l.startswith("\t\t"):
+            geo[-1][1].append(l.strip().rstrip(";"))
+        elif l.strip() not in ("{", "}"):
+            geo.append([l.strip(), []])
+    res["geometry"] = geo
     verts = []
     for l in _section(text, "vertices"):
         m = re.fullmatch(r"\t(project )?(\([^)]*\))(?: \(([^)]*)\))? // (\d+)", l)
@@ -381,9 +388,24 @@ class C12(core.Check):
             elif r < 0.67:
                 st = rng.choice([None, None, [], ["neighbourPatch pb"], ["transform none", "k v"]])
                 steps.append(["mod", rng.choice(names), rng.choice(["wall", "patch", "cyclic", "empty"]), st])
-            elif r < 0.71:
+            elif r < 0.70:
                 steps.append(["def", rng.choice(["dflt", "rest"]), rng.choice(["wall", "patch"])])
-            elif r < 0.76:
+            elif r < 0.74:
+                # a searchable surface added by the user (faces / corners of the cases are projected to g0..g2)
+                steps.append(
+                    [
+                        "geo",
+                        rng.choice(["g0", "g1", "g2"]),
+                        rng.choice(
+                            [
+                                ["type sphere", "origin (0 0 0)", "radius 1.5"],
+                                ["type plane", "planeType pointAndNormal", "point (0 0 0)", "normal (0 0 1)"],
+                                ["type triSurfaceMesh", "file \"terrain.stl\""],
+                            ]
+                        ),
+                    ]
+                )
+            elif r < 0.78:
                 a, b = rng.sample(names[:4], 2)
                 steps.append(["mrg", a, b])
             else:
@@ -490,6 +512,8 @@ class C12(core.Check):
                     mesh.set_default_patch(st[1], st[2])
                 elif st[0] == "mrg":
                     mesh.merge_patches(st[1], st[2])
+                elif st[0] == "geo":
+                    mesh.add_geometry({st[1]: list(st[2])})
                 elif st[0] == "wr":
                     try:
                         open(path, "w").close()
@@ -522,6 +546,7 @@ class C12(core.Check):
         mods: Dict[str, list] = {}
         dflt = None
         merges: List[list] = []
+        geometry: Dict[str, list] = {}
         n_vertices = 0  # vertices the last assembly must have created: one per (point, slave patches at the corner)
         out = []
 
@@ -575,6 +600,8 @@ class C12(core.Check):
                     mods[st[1]][1] = list(st[3])
             elif st[0] == "def":
                 dflt = [st[1], st[2]]
+            elif st[0] == "geo":
+                geometry = {**geometry, st[1]: list(st[2])}
             elif st[0] == "mv":
                 if isinstance(o, dict) and "moved" in o:
                     moves.append((o["moved"], st[2]))
@@ -614,6 +641,7 @@ class C12(core.Check):
                     "dflt": dflt,
                     "merges": [list(m) for m in merges],
                     "n_vertices": n_vertices,
+                    "geometry": {k: list(v) for k, v in geometry.items()},
                 }
             )
         return out
@@ -638,6 +666,8 @@ class C12(core.Check):
                     spec = case["ops"][i]
                     chops = local_chops(spec, case["counts"])
                     mesh.add(build_op(spec, sh["pos"][i], chops))
+                for name, props in sh["geometry"].items():
+                    mesh.add_geometry({name: props})
                 for m in sh["merges"]:
                     mesh.merge_patches(*m)
                 if sh["dflt"]:
@@ -724,6 +754,8 @@ class C12(core.Check):
                 toks.append(f"def!{st[1]}!{st[2]}")
             elif st[0] == "mrg":
                 toks.append(f"mrg!{st[1]}!{st[2]}")
+            elif st[0] == "geo":
+                toks.append(f"geo!{st[1]}!" + ("|".join(x.replace(" ", "~") for x in st[2]) if st[2] else "0"))
         return ["c12.hist " + " ".join(toks)]
 
     @staticmethod
@@ -747,7 +779,8 @@ class C12(core.Check):
         ]
         d = ":".join(parsed["default"]) if parsed["default"] else ""
         ms = [f"{a}-{b}" for a, b in parsed["merged"]]
-        return f"V[{';'.join(vs)}]B[{';'.join(bs)}]E[{';'.join(es)}]F[{';'.join(fs)}]P[{';'.join(ps)}]D[{d}]M[{';'.join(ms)}]"
+        gs = [f"{n}:{'|'.join(x.replace(' ', '~') for x in props)}" for n, props in parsed.get("geometry", [])]
+        return f"G[{';'.join(gs)}]V[{';'.join(vs)}]B[{';'.join(bs)}]E[{';'.join(es)}]F[{';'.join(fs)}]P[{';'.join(ps)}]D[{d}]M[{';'.join(ms)}]"
 
     ERR = {"RuntimeError": "err:notAssembled", "UndefinedGradingsError": "err:undefined"}
 
@@ -850,6 +883,15 @@ class C12(core.Check):
                 out.append({"site": "Mesh.write:unparsable-file", "what": f"call {n}: {e}"})
                 since, last_text = [], text
                 continue
+            if [[k, v] for k, v in sh["geometry"].items()] != parsed["geometry"]:
+                out.append(
+                    {
+                        "site": "Mesh.add_geometry:geometry-section-differs",
+                        "what": f"call {n}: geometry written {parsed['geometry']}, added through the mesh {sh['geometry']} (calls since the last write: {since})",
+                        "observed": parsed["geometry"],
+                        "expected": sh["geometry"],
+                    }
+                )
             written_names = [p["name"] for p in parsed["patches"]]
             for name in sh["mods"]:
                 if name not in written_names:
@@ -932,7 +974,7 @@ class C12(core.Check):
             key += ":groups"
         if case.get("frame", [[0, 0, 0], 1.0])[1] != 1.0:
             key += ":far"
-        for flag in ("bkp", "clr", "del", "mv", "nudge", "mrg"):
+        for flag in ("bkp", "clr", "del", "mv", "nudge", "mrg", "geo"):
             if flag in calls:
                 key += ":" + flag
         return key
